@@ -1002,6 +1002,29 @@ def build_unit(unit_dir, repo, reach=False):
             if kind == 'fn':
                 emit_fn(src, path, s, h, e, item.get('serves'), False, None, item.get('instance'))
                 continue
+            if kind == 'closure_fn':
+                # R29 (lifting, standalone form): the body of the k-th closure literal of the named function becomes a free
+                # function with the header given in unit.json; the body text is copied verbatim.  What is dropped: the
+                # whole enclosing function (not claimed).  The closure must not capture anything: every free name of the
+                # body has to be a parameter of the new header, otherwise rustc rejects the generated file (-> undecided).
+                ftext = src.text[s:e]
+                cl = find_closures(ftext)
+                k = item['ordinal']
+                if k < 1 or k > len(cl):
+                    raise LostAnchor("%s: closure %d not found (function has %d closure literals)" % (' :: '.join(path), k, len(cl)))
+                (cs, bs, be, is_block) = cl[k - 1]
+                chdr = ' '.join(ftext[cs:bs].split())
+                if item.get('closure_header') and chdr != item['closure_header']:
+                    raise LostAnchor("%s: closure %d has header `%s`, expected `%s`" % (' :: '.join(path), k, chdr, item['closure_header']))
+                body = ftext[bs:be]
+                if not is_block:
+                    body = '{ ' + body + ' }'
+                new_name = item['as'].split('(')[0].split()[-1]
+                lifted = item['as'] + ' ' + body
+                G.log.append(dict(rule='R29', fn=new_name, what='closure %d (`%s`) of %s lifted to `%s`; body verbatim; the enclosing function is not extracted' % (k, chdr, ' :: '.join(path), item['as'])))
+                lsrc = Source(src.path, lifted)
+                emit_fn(lsrc, path + ['fn ' + new_name], 0, lifted.index('{'), len(lifted), item.get('serves'), False, None, None)
+                continue
             raise Unsupported("unit.json: unknown item kind %s" % kind)
 
     mark('extracted', extracted)
